@@ -14,11 +14,36 @@ ATOM_CALLS = ["Potential.finite.build", "Potential.generate_slices", "Potential(
               "FrozenPhonons.randomize", "PlaneWave.multislice(atoms)", "Probe.scan(atoms)", "SMatrix(atoms)", "CrystalPotential",
               "Potential.to_images", "flip_atoms", "merge_close_atoms", "orthogonalize_cell", "orthogonalize_cell_origin", "orthogonalize_cell_plane", "standardize_cell", "Potential", "Potential.build",
               "FrozenPhonons", "FrozenPhonons.build", "StructureFactor", "BlochWaves", "pad_atoms", "cut_cell", "rotate_atoms_to_plane",
-              "atoms_in_cell", "wrapped", "shrink_cell", "is_cell_orthogonal", "plane_to_axes_noop"]
+              "atoms_in_cell", "wrapped", "shrink_cell", "is_cell_orthogonal", "rotate_atoms"]
+# structures each entry point is fed (default: all families); an entry point that never succeeds in a run fails the check
+ATOM_KINDS = ["graphene", "hex-bulk", "fcc-primitive", "mos2", "sheared", "cubic", "cubic-permuted", "cubic-rotated"]
+ATOM_KINDS_FOR = {"standardize_cell": ["cubic", "cubic-permuted", "cubic-rotated", "cubic-rotated"],
+                  "rotate_atoms_to_plane": ["hex-bulk", "fcc-primitive", "sheared", "cubic", "cubic-permuted"],
+                  "FrozenPhonons.build": ["graphene", "hex-bulk", "fcc-primitive", "mos2", "cubic"],
+                  "shrink_cell": ["graphene", "hex-bulk", "fcc-primitive", "sheared", "cubic"]}
 MEAS_METHODS = ["real", "imag", "phase", "abs", "intensity", "interpolate", "crop", "gaussian_filter", "tile", "mean", "sum",
-                "to_cpu", "copy", "poisson_noise", "__getitem__", "integrate_gradient_noop", "diffraction_patterns", "squeeze",
-                "expand_dims", "__add__", "__mul__", "show_noop", "normalize_ensemble", "relative_difference", "to_zarr_noop",
-                "interpolate_line_at_position", "center_of_mass", "integrate_radial", "block_direct", "integrated_intensity"]
+                "to_cpu", "copy", "poisson_noise", "__getitem__", "squeeze", "expand_dims", "__add__", "__mul__", "normalize_ensemble",
+                "relative_difference", "interpolate_line_at_position", "center_of_mass", "integrate_radial", "block_direct"]
+
+
+def meas_applicable(method, kind):
+    """the (method, measurement kind) pairs that exist and are meant to work; only these are generated"""
+    base, val = kind.split("-")
+    if method in ("real", "imag", "phase", "intensity"):
+        return val == "complex"
+    if method in ("poisson_noise", "relative_difference"):
+        return val == "real"
+    if method in ("crop", "tile"):
+        return base == "Images"
+    if method in ("gaussian_filter", "interpolate_line_at_position"):
+        return base in ("Images", "DiffractionPatterns")
+    if method in ("center_of_mass", "block_direct"):
+        return base == "DiffractionPatterns"
+    if method == "integrate_radial":
+        return base in ("DiffractionPatterns", "PolarMeasurements")
+    if method == "interpolate":
+        return base != "PolarMeasurements"
+    return True
 
 
 # ------------------------------------------------------------------ atoms
@@ -38,10 +63,25 @@ def gen_atoms(rng, kind):
         c = a.cell.array.copy()
         c[1, 0] = 0.5 * c[0, 0]
         a.set_cell(c, scale_atoms=True)
+    elif kind == "cubic-permuted":
+        a = bulk("Si", cubic=True)
+        c = a.cell.array.copy()
+        a.set_cell(c[[1, 0, 2]] * np.array([[1.0], [-1.0], [1.0]]), scale_atoms=False)
+    elif kind == "cubic-rotated":
+        a = bulk("Si", cubic=True)
+        a.rotate(rng.choice([30.0, 45.0, -60.0]), "z", rotate_cell=True)
     else:
         a = bulk("Si", cubic=True)
     a = a * (rng.randint(1, 2), rng.randint(1, 2), 1)
-    if rng.random() < 0.7:  # atoms outside the cell
+    # state beyond positions/cell/numbers that a call might touch
+    a.set_tags(list(range(len(a))))
+    a.set_initial_charges([0.25 * (i % 3) for i in range(len(a))])
+    a.set_momenta(np.full((len(a), 3), 0.5))
+    a.info["note"] = {"k": [1, 2, 3]}
+    if rng.random() < 0.5:
+        from ase.constraints import FixAtoms
+        a.set_constraint(FixAtoms(indices=[0]))
+    if True:  # always at least one atom outside the cell (wrapping is the commonest way an input gets modified)
         idx = rng.randrange(len(a))
         a.positions[idx] += np.array([rng.choice([-1, 1, 2]) * a.cell.lengths()[0] * 1.25, rng.choice([-7.0, 0.0, 9.5]), rng.choice([0.0, -3.0])])
     if rng.random() < 0.3:
@@ -50,13 +90,18 @@ def gen_atoms(rng, kind):
 
 
 def snapshot_atoms(a):
-    return {"positions": a.positions.copy(), "cell": a.cell.array.copy(), "numbers": a.numbers.copy(), "pbc": a.pbc.copy(),
-            "arrays": sorted(a.arrays.keys())}
+    s = {"cell": a.cell.array.copy(), "pbc": a.pbc.copy(), "celldisp": np.array(a.get_celldisp()).copy(),
+         "array-keys": sorted(a.arrays.keys()), "info": repr(copy.deepcopy(a.info)), "constraints": repr(a.constraints),
+         "calc": repr(a.calc)}
+    for k, v in a.arrays.items():   # positions, numbers, tags, momenta, initial_charges, …
+        s["arrays." + k] = np.array(v, copy=True)
+    return s
 
 
 def same_atoms(s, a):
     t = snapshot_atoms(a)
-    return [k for k in s if not (np.array_equal(s[k], t[k]) if isinstance(s[k], np.ndarray) else s[k] == t[k])]
+    return [k for k in sorted(set(s) | set(t))
+            if k not in s or k not in t or not (np.array_equal(s[k], t[k]) if isinstance(s[k], np.ndarray) else s[k] == t[k])]
 
 
 def call_atoms(name, a, rng):
@@ -85,7 +130,7 @@ def call_atoms(name, a, rng):
     if name == "Probe.scan(atoms)":
         return abtem.Probe(energy=100e3, semiangle_cutoff=20, sampling=0.4).scan(a, scan=abtem.GridScan(gpts=2), lazy=False)
     if name == "SMatrix(atoms)":
-        return abtem.SMatrix(a, energy=100e3, semiangle_cutoff=10, sampling=0.4).build(lazy=False)
+        return abtem.SMatrix(potential=a, energy=100e3, semiangle_cutoff=10, sampling=0.4).build(lazy=False)
     if name == "CrystalPotential":
         pot = abtem.Potential(a, sampling=0.4, slice_thickness=2.0, projection="infinite")
         return abtem.CrystalPotential(pot, repetitions=(1, 1, 2)).build(lazy=False)
@@ -120,7 +165,7 @@ def call_atoms(name, a, rng):
     if name == "pad_atoms":
         return AT.pad_atoms(a, margins=1.0)
     if name == "cut_cell":
-        return AT.cut_cell(a, a=(1, 0, 0), b=(0, 1, 0), c=(0, 0, 1))
+        return AT.cut_cell(a, cell=(4.0, 4.0, 4.0), origin=(0.5, 0.0, 0.0), margin=0.5)
     if name == "rotate_atoms_to_plane":
         return AT.rotate_atoms_to_plane(a, rng.choice(["xy", "xz", "yz"]))
     if name == "atoms_in_cell":
@@ -131,15 +176,17 @@ def call_atoms(name, a, rng):
         return AT.shrink_cell(a) if hasattr(AT, "shrink_cell") else None
     if name == "is_cell_orthogonal":
         return AT.is_cell_orthogonal(a)
-    return None
+    if name == "rotate_atoms":
+        return AT.rotate_atoms(a, axes="zxz", angles=(0.3, 0.1, 0.0))
+    raise ValueError(f"unknown entry point {name}")
 
 
 # ------------------------------------------------------------------ measurements
-def gen_measurement(rng, kind):
+def gen_measurement(rng, kind, force_ens=False):
     from abtem import measurements as M
     from abtem.core import axes as A
     nprng = np.random.default_rng(rng.randint(0, 10**6))
-    ens = [A.ParameterAxis(label="C10", values=(1.0, 2.0), units="Å")] if rng.random() < 0.5 else []
+    ens = [A.ParameterAxis(label="C10", values=(1.0, 2.0), units="Å")] if (rng.random() < 0.5 or force_ens) else []
     es = (2,) if ens else ()
     cplx = kind.endswith("-complex")
     base = kind.split("-")[0]
@@ -148,6 +195,8 @@ def gen_measurement(rng, kind):
         a = nprng.random(shape).astype(np.float32)
         return (a + 1j * nprng.random(shape)).astype(np.complex64) if cplx else a
     md = {"label": "orig", "units": "e", "energy": 100e3, "note": (1, 2)}
+    if base == "DiffractionPatterns":   # metadata values may be numpy arrays (mutable), e.g. a cutoff computed with numpy
+        md["semiangle_cutoff"] = np.array(10.0)
     if base == "Images":
         return M.Images(arr(es + (6, 6)), sampling=0.2, ensemble_axes_metadata=ens, metadata=md)
     if base == "DiffractionPatterns":
@@ -174,7 +223,8 @@ def changed_meas(s, m):
     out = []
     if not np.array_equal(s["array"], np.asarray(m.array), equal_nan=True) or s["array"].dtype != np.asarray(m.array).dtype:
         out.append("array")
-    if s["metadata"] != m.metadata or list(s["metadata"]) != list(m.metadata):
+    if list(s["metadata"]) != list(m.metadata) or any(
+            not np.array_equal(np.asarray(s["metadata"][k], dtype=object), np.asarray(m.metadata[k], dtype=object)) for k in s["metadata"]):
         out.append("metadata")
     if len(s["axes"]) != len(m.axes_metadata) or any(not (a == b) for a, b in zip(s["axes"], m.axes_metadata)):
         out.append("axes")
@@ -242,8 +292,8 @@ class C32(Property):
     assumptions = ["dynamic part: inputs drawn from six crystal families (incl. non-orthogonal cells, atoms outside the cell, shifted "
                    "origins) and nine measurement kinds; a mutation that needs other inputs would be missed by the snapshots",
                    "to_data_array needs xarray (not installed): its fix is covered by the static table only"]
-    rule = ("atoms calls: 30 public entry points (potential build finite/infinite, slices, ensembles, frozen phonons, multislice/scan/SMatrix with bare atoms, cell utilities) x random structures (graphene, hcp, fcc primitive, MoS2, sheared and cubic Si; repeated; "
-            "atoms outside the cell; shifted) ; measurement methods: 30 methods x 9 measurement kinds (real/complex, with/without ensemble "
+    rule = ("atoms calls: 31 entry points (potential build finite/infinite, slices, ensembles, frozen phonons, multislice/scan/SMatrix with bare atoms, cell utilities), each fed structure families it accepts and each required to succeed at least once per run x random structures (graphene, hcp, fcc primitive, MoS2, sheared and cubic Si; repeated; "
+            "atoms outside the cell; shifted) ; measurement methods: 25 methods on the measurement kinds they exist for (applicability table `meas_applicable`), each required to succeed at least once per run; 9 measurement kinds (real/complex, with/without ensemble "
             "axis); distinct = distinct (call, input) JSON; non-trivial = the call returned without raising")
 
     # static facts vs dynamic observation ------------------------------------------------
@@ -301,11 +351,13 @@ class C32(Property):
             if diff:
                 ctx.violation(f"{case['call']}-mutates-caller-atoms", case, {"changed": diff, "outcome": outcome})
             return outcome
-        m = gen_measurement(rng, case["kind"])
+        m = gen_measurement(rng, case["kind"], force_ens=case["call"] in ("mean", "sum", "__getitem__"))
         s = snapshot_meas(m)
         try:
             r = call_meas(case["call"], m, rng)
-            outcome = "n/a" if isinstance(r, str) and r == "n/a" else "ok"
+            if isinstance(r, str) and r == "n/a":
+                raise RuntimeError(f"{case['call']} does not exist for {case['kind']} (recipe table out of date)")
+            outcome = "ok"
         except Exception as e:  # noqa
             outcome = "raised:" + type(e).__name__
         diff = changed_meas(s, m)
@@ -317,18 +369,28 @@ class C32(Property):
 
     def conformance(self, ctx: Ctx):
         rng = ctx.rng
-        kinds = ["graphene", "hex-bulk", "fcc-primitive", "mos2", "sheared", "cubic"]
-        for i in range(ctx.n(150, 1800)):
-            case = {"what": "atoms", "call": ATOM_CALLS[i % len(ATOM_CALLS)], "kind": rng.choice(kinds), "seed": rng.randint(0, 10**6)}
+        succeeded = {}
+        # every entry point on every structure family it accepts (a mutation path may need one particular family, e.g. an
+        # orthogonal cell equal to the box), repeated with fresh random structures in the thorough tier
+        atom_pairs = [(c, k) for c in ATOM_CALLS for k in dict.fromkeys(ATOM_KINDS_FOR.get(c, ATOM_KINDS))]
+        for i in range(len(atom_pairs) * ctx.n(1, 8)):
+            call, kind = atom_pairs[i % len(atom_pairs)]
+            case = {"what": "atoms", "call": call, "kind": kind, "seed": rng.randint(0, 10**6)}
             out = self.oracle(ctx, case)
-            ctx.count(f"atoms:{case['call']}:{out.split(':')[0]}")
+            succeeded[("atoms", call)] = succeeded.get(("atoms", call), 0) + (out == "ok")
+            ctx.count(f"atoms:{call}:{out.split(':')[0]}")
             ctx.case(case, nontrivial=out == "ok")
-        for i in range(ctx.n(270, 3000)):
-            case = {"what": "measurement", "call": MEAS_METHODS[i % len(MEAS_METHODS)], "kind": MEAS_KINDS[(i // len(MEAS_METHODS)) % len(MEAS_KINDS)],
-                    "seed": rng.randint(0, 10**6)}
+        pairs = [(m, k) for m in MEAS_METHODS for k in MEAS_KINDS if meas_applicable(m, k)]
+        for i in range(ctx.n(len(pairs) * 2, len(pairs) * 20)):
+            meth, kind = pairs[i % len(pairs)]
+            case = {"what": "measurement", "call": meth, "kind": kind, "seed": rng.randint(0, 10**6)}
             out = self.oracle(ctx, case)
-            ctx.count(f"meas:{case['call']}:{out.split(':')[0]}")
+            succeeded[("measurement", meth)] = succeeded.get(("measurement", meth), 0) + (out == "ok")
+            ctx.count(f"meas:{meth}:{out.split(':')[0]}")
             ctx.case(case, nontrivial=out == "ok")
+        never = sorted(f"{w}:{c}" for (w, c), n in succeeded.items() if n == 0)
+        if never:  # an entry point that is never exercised successfully is not covered: the check must not pass silently
+            raise RuntimeError("entry points never exercised successfully in this run: " + ", ".join(never))
 
     def replay(self, ctx: Ctx, case):
         self.oracle(ctx, case)
